@@ -32,6 +32,10 @@ def run(ctx):
         "backslash before double quote; (F6) a value that may be a list is not used as a dictionary key.")
     ctx.not_decided = "the parser's verdict on the rendered text for all definitions and values (behavioural)."
     factory_rules(ctx, R, PR)
+    # "valid" is the parser's verdict on the rendered text: the token rules (L1-L4 of C01) are part of this property's mechanism -
+    # an escaped quote or backslash the factory writes correctly must lex as part of its string
+    from .c01 import lexer_rules
+    lexer_rules(ctx, PR)
 
 
 def factory_rules(ctx, R, PR):
